@@ -177,6 +177,10 @@ def _split():
         for op, grow, keys in (("push", 1, (n,)), ("change_priority", 0, (0, 3, n - 1)), ("remove", 0, (0, 1, 7))):
             for k in keys:
                 step(op, "pq", n, "inv", "or", {"C01": QUICK if n == 15 else THOROUGH}, tables=f"idk{k}", grow=grow, cost=200, mem=4)
+    # change_priority_by shares the sift path of change_priority but not its entry point
+    for n, keys in ((4, (0, 1, 3)), (6, (1, 3))):
+        for k in keys:
+            step("change_priority_by", "dq", n, "inv", "or", {"C02": QUICK}, tables=f"idk{k}", cost=40 * n)
     # C11 / C12 on the min-max heap at n = 4: every position, all groups
     for n, t in ((4, QUICK), (6, THOROUGH)):
         for op in ("push_increase", "push_decrease"):
